@@ -379,3 +379,105 @@ func TestEncodersConcurrent(t *testing.T) {
 		stats.Class(fmt.Sprintf("encoders:goroutines=%d", n))
 	})
 }
+
+// TestTextResponsesConcurrent: text/plain and text/html responses written
+// through goahttp.ResponseEncoder by handlers of one goa muxer, mixed with
+// requests for routes that are not mounted (the muxer answers those itself,
+// with the encoder the Accept header selects). Every response must be the
+// one computed from its own request, whatever ran before or runs next to it.
+func TestTextResponsesConcurrent(t *testing.T) {
+	rapid.Check(t, func(rt *rapid.T) {
+		mux := goahttp.NewMuxer()
+		mux.Handle("GET", "/echo/{word}", func(w http.ResponseWriter, r *http.Request) {
+			ctx := context.WithValue(r.Context(), goahttp.AcceptTypeKey, r.Header.Get("Accept"))
+			word := mux.Vars(r)["word"]
+			if err := goahttp.ResponseEncoder(ctx, w).Encode("echo:" + word); err != nil {
+				http.Error(w, "encode: "+err.Error(), 599)
+			}
+		})
+		type req struct {
+			path, accept string
+			missing      bool
+			word         string
+		}
+		n := rapid.SampledFrom([]int{4, 16, 64}).Draw(rt, "goroutines")
+		warm := rapid.IntRange(0, 3).Draw(rt, "not-found-before-the-burst")
+		mk := func(i int, label string) req {
+			acc := rapid.SampledFrom([]string{"text/plain", "text/html", "text/plain; charset=utf-8", "application/json", ""}).Draw(rt, label+"accept")
+			if rapid.IntRange(0, 3).Draw(rt, label+"missing") == 0 {
+				return req{path: fmt.Sprintf("/nowhere/%d", i), accept: acc, missing: true}
+			}
+			w := rapid.StringMatching(`[a-z]{1,8}`).Draw(rt, label+"word") + fmt.Sprint(i)
+			return req{path: "/echo/" + w, accept: acc, word: w}
+		}
+		do := func(q req) (int, string, string) {
+			w := httptest.NewRecorder()
+			r := httptest.NewRequest("GET", "http://example.com"+q.path, nil)
+			if q.accept != "" {
+				r.Header.Set("Accept", q.accept)
+			}
+			mux.ServeHTTP(w, r)
+			return w.Code, w.Header().Get("Content-Type"), w.Body.String()
+		}
+		judge := func(q req, code int, ct, body string) string {
+			text := strings.HasPrefix(q.accept, "text/")
+			if q.missing {
+				if code != http.StatusNotFound {
+					return fmt.Sprintf("status %d for a route that is not mounted", code)
+				}
+				if !strings.Contains(body, "404 page not found") || strings.Contains(body, "echo:") {
+					return fmt.Sprintf("body %q", body)
+				}
+				return ""
+			}
+			if code != http.StatusOK {
+				return fmt.Sprintf("status %d, body %q", code, body)
+			}
+			want := "echo:" + q.word
+			if text {
+				if body != want {
+					return fmt.Sprintf("body %q, want %q", body, want)
+				}
+				if !strings.HasPrefix(ct, "text/") {
+					return fmt.Sprintf("Content-Type %q for Accept %q", ct, q.accept)
+				}
+				return ""
+			}
+			var got string
+			if err := json.Unmarshal([]byte(body), &got); err != nil || got != want {
+				return fmt.Sprintf("body %q, want the JSON string %q", body, want)
+			}
+			return ""
+		}
+		for i := 0; i < warm; i++ {
+			q := req{path: fmt.Sprintf("/nowhere/warm%d", i), accept: rapid.SampledFrom([]string{"text/plain", "text/html"}).Draw(rt, "warmaccept"), missing: true}
+			code, ct, body := do(q)
+			if msg := judge(q, code, ct, body); msg != "" {
+				rt.Fatalf("sequential request %s (Accept %q): %s", q.path, q.accept, msg)
+			}
+		}
+		reqs := make([]req, n)
+		texts, missing := 0, warm
+		for i := range reqs {
+			reqs[i] = mk(i, fmt.Sprintf("r%d-", i))
+			if strings.HasPrefix(reqs[i].accept, "text/") {
+				texts++
+			}
+			if reqs[i].missing {
+				missing++
+			}
+		}
+		codes, cts, bodies := make([]int, n), make([]string, n), make([]string, n)
+		parallel(n, func(i int) { codes[i], cts[i], bodies[i] = do(reqs[i]) })
+		for i, q := range reqs {
+			if msg := judge(q, codes[i], cts[i], bodies[i]); msg != "" {
+				rt.Fatalf("request %d %s (Accept %q) served concurrently with %d others after %d sequential not-found requests: %s", i, q.path, q.accept, n-1, warm, msg)
+			}
+		}
+		stats.Case(fmt.Sprintf("textresponses|%v|%d", reqs, warm), texts >= 2 && missing >= 1)
+		stats.Class(fmt.Sprintf("text-responses:goroutines=%d", n))
+		if warm > 0 {
+			stats.Class("text-responses:not-found-before-the-burst")
+		}
+	})
+}
